@@ -40,6 +40,12 @@ impl<AS: GuestAddressSpace> Vsock<AS> {
         })
     }
 
+    /// Create a `Vsock` object from an already opened descriptor (verification harness only).
+    #[cfg(feature = "verif-hooks")]
+    pub fn with_fd(fd: File, mem: AS) -> Self {
+        Vsock { fd, mem }
+    }
+
     fn set_running(&self, running: bool) -> Result<()> {
         let on: ::std::os::raw::c_int = if running { 1 } else { 0 };
 
